@@ -183,7 +183,16 @@ func C20(c *Ctx) {
 		// R3: node emission
 		var nodeCalls []*ssa.Call
 		var nodeFn *ssa.Function
-		for _, f := range ssau.WithAnon(r.top) {
+		// the renderer, its literals, and the functions of the package it reaches (a literal may have become a method)
+		var topFns []*ssa.Function
+		seenTF := map[*ssa.Function]bool{}
+		for _, f := range append(ssau.WithAnon(r.top), pkgClosure(r.top)...) {
+			if !seenTF[f] && f.Blocks != nil && prog.PkgOf(f) == "tools" && f.Synthetic == "" {
+				seenTF[f] = true
+				topFns = append(topFns, f)
+			}
+		}
+		for _, f := range topFns {
 			for _, nf := range r.nodeFmt {
 				for _, cl := range fprintfCalls(f, nf) {
 					nodeCalls = append(nodeCalls, cl)
@@ -191,11 +200,20 @@ func C20(c *Ctx) {
 				}
 			}
 		}
-		if nodeFn == nil || len(nodeFn.Params) == 0 {
+		// the name parameter: the first parameter of type string (a method's receiver comes first)
+		var nameP *ssa.Parameter
+		if nodeFn != nil {
+			for _, p := range nodeFn.Params {
+				if bt, isB := p.Type().Underlying().(*types.Basic); isB && bt.Kind() == types.String {
+					nameP = p
+					break
+				}
+			}
+		}
+		if nodeFn == nil || nameP == nil {
 			c.R.Violate("C20-R3", r.name+": node emission", c.P.Pos(r.top.Pos()), "no node declaration is written by a function of the node's name")
 			continue
 		}
-		nameP := nodeFn.Params[0]
 		// memo: a lookup in a local map keyed by the name parameter, early return when present, and an update with the same key
 		memoOK := false
 		var memoMap ssa.Value
@@ -209,7 +227,7 @@ func C20(c *Ctx) {
 			}
 			// same map updated with the name as key
 			ssau.Instrs(nodeFn, func(in2 ssa.Instruction) {
-				if mu, ok := in2.(*ssa.MapUpdate); ok && mu.Key == ssa.Value(nameP) && sameVar(mu.Map, lk.X) {
+				if mu, ok := in2.(*ssa.MapUpdate); ok && mu.Key == ssa.Value(nameP) && (sameVar(mu.Map, lk.X) || sameLoad(mu.Map, lk.X)) {
 					memoOK = true
 					memoMap = lk.X
 				}
@@ -239,7 +257,7 @@ func C20(c *Ctx) {
 				} else if memoMap != nil {
 					// value stored under memo[name]
 					ssau.Instrs(nodeFn, func(in2 ssa.Instruction) {
-						if mu, ok := in2.(*ssa.MapUpdate); ok && mu.Key == ssa.Value(nameP) && sameVar(mu.Map, memoMap) && mu.Value == id {
+						if mu, ok := in2.(*ssa.MapUpdate); ok && mu.Key == ssa.Value(nameP) && (sameVar(mu.Map, memoMap) || sameLoad(mu.Map, memoMap)) && mu.Value == id {
 							okID = true
 						}
 					})
@@ -422,6 +440,27 @@ func varOrigins(top *ssa.Function, v ssa.Value) []ssa.Value {
 			}
 			seen[d] = true
 			if ld, ok := d.(*ssa.UnOp); ok && ld.Op == token.MUL {
+				if fa, isFA := ld.X.(*ssa.FieldAddr); isFA {
+					// a field of a local helper struct: every value stored into that field (of any object of the type)
+					n := 0
+					for _, f := range scope {
+						ssau.Instrs(f, func(in ssa.Instruction) {
+							st, ok := in.(*ssa.Store)
+							if !ok {
+								return
+							}
+							fb, isFB := st.Addr.(*ssa.FieldAddr)
+							if !isFB || fb.Field != fa.Field || !types.Identical(fb.X.Type(), fa.X.Type()) {
+								return
+							}
+							n++
+							rec(st.Val, depth+1)
+						})
+					}
+					if n > 0 {
+						continue
+					}
+				}
 				switch ld.X.(type) {
 				case *ssa.Alloc, *ssa.FreeVar:
 					root := w.cellRoot(ld.X)
